@@ -167,8 +167,23 @@ func (m *machine) write(t *rapid.T, pi int, client regs.Ref, si int, f *gen.Func
 		world.Label("write/function-element-names-other-function")
 	}
 	d := p.Msg(model.CmdClassifierTypeWrite, clientAddr, srv.Address(), ack, nil, cmd)
+	// a datagram may carry several commands: now and then a second one follows that writes the function the
+	// feature announces as read-only. Whatever the stack makes of further commands, that function's data stays
+	var roFn *gen.Func
+	var roBefore string
+	if ro := w.Servers[si].ReadOnly; f.Fn != ro && rapid.IntRange(0, 4).Draw(t, "secondCmd") == 0 {
+		roFn = gen.ByFunction(ro)
+		roBefore = world.JSON(srv.DataCopy(ro))
+		d.Payload.Cmd = append(d.Payload.Cmd, listgen.Cmd(roFn, refmodel.Update{Items: listgen.Items(t, roFn, 2, gen.Opt{}, "secondCmd.items")}))
+		world.Label("write/second-command-on-read-only-function")
+	}
 	p.Send(d)
 	w.Sync()
+	if roFn != nil {
+		if roAfter := world.JSON(srv.DataCopy(roFn.Fn)); roAfter != roBefore {
+			world.Fail(t, "C03/unauthorised-write-applied/not-writable", "a write datagram whose second command names %s (announced read-only) changed that function's data\n before: %s\n after:  %s%s", roFn.Fn, roBefore, roAfter, m.history())
+		}
+	}
 	results, errNo := 0, -1
 	notifies := 0
 	for qi, q := range w.Peers {
